@@ -76,6 +76,8 @@ def worker(c):
         before = pointers()
         lib.vf_mem_stats(None, st)
         ev0 = sum(st[i] for i in range(5))
+        nviol0 = int(st[5])
+        warn0 = d.sv("warning")["number"].copy()
         try:
             if call == "mj_step":
                 d.step(int(rng.integers(1, 4)))
@@ -124,6 +126,26 @@ def worker(c):
         after = pointers()
         lib.vf_mem_stats(d.ptr, st)
         ev1 = sum(st[i] for i in range(5))
+        if int(st[5]) > nviol0 and call == "mjd_transitionFD":
+            # mechanism test: a perturbed step inside mjd_transitionFD tripped a bad-value check and mj_resetData ran (autoreset),
+            # which zeroes pstack/pbase UNDER the still open frame of mjd_stepFD: later stack blocks overlap its live arrays
+            w = d.sv("warning")["number"] - warn0
+            bad = int(w[E.mjWARN_BADQPOS]) + int(w[E.mjWARN_BADQVEL]) + int(w[E.mjWARN_BADQACC])
+            msgs = [lib.vf_mem_violation(i).decode() for i in range(nviol0, min(8, int(st[5])))]
+            autoreset_on = not (int(m.opt["disableflags"]) & int(E.mjDSBL_AUTORESET))
+            if bad > 0 and autoreset_on and nviol0 == 0:
+                P.violation("autoreset-inside-mjd_transitionFD-resets-the-stack-under-the-open-frame",
+                            {"model": name, "messages": msgs[:4], "case": c, "options": opts, "warnings_raised": w.tolist(), "pointers": [before, after]})
+                lib.vf_mem_clear_violations()
+                lib.vf_mem_forget(d.ptr)
+                if nthread:
+                    L.call("mju_threadpool", d, 0, ret=None)
+                d.free()
+                d = m.make_data()
+                lib.vf_mem_track(d.ptr)
+                if nthread:
+                    L.call("mju_threadpool", d, nthread, ret=None)
+                continue
         P.case("%s|%s|%s|t%d" % (name, json.dumps(opts, sort_keys=True), call, nthread), nontrivial=ev1 > ev0,
                sample={"model": name, "call": call, "nthread": nthread, "events": int(ev1 - ev0), "options": opts})
         if after != before:
